@@ -13,38 +13,52 @@ def run(tier, seed):
     inv = ["TypeOK", "TimeoutOnlyIfDue", "TimerIff", "TimerNotLate"]
     K = lambda tag, acts, **kw: bc.consts("pair", acts, 3, sizes=(1,), drains=(0,), script_until=0, wms=((0, 0),),
                                           durs=(0, 2), allow=(tag,), **kw)
+    df = seed % 2 == 0
+    EXH5 = lambda D: bc.consts("pair", {"write", "enable", "loop", "tmo", "tmor"}, D, sizes=(1,), drains=(0,), wms=((0, 0),),
+                               durs=(0, 1, 2), oneway=True, script_until=0, tend=1)
+    SK = lambda d, D: bc.consts("sock", T | ({"shut"} if not d else set()), D, sizes=(1, 2), drains=(0, 99), wms=((0, 0),),
+                                durs=(0, 1, 2, 3), script_until=1, defer=d)
+    known = [dict(name="C20_known_rt", key="pair-read-timeout-while-disabled",
+                  consts=K("pair_rt_rearm", {"write", "tmo", "tmor", "flush"})),
+             dict(name="C20_known_wt", key="pair-write-timeout-wrong-endpoint",
+                  consts=K("pair_wt_endpoint", {"write", "enable", "tmo", "tmow"}))]
+    quick_gen = [
+        # every 4-step history of: writer writes / reader sets a read timeout, enables, loops with time passing
+        # (also the bounded model check of the quick tier: invariants on every state of every history)
+        dict(name="C20_pair_exh5", consts=EXH5(4), ticks=(1000,), invariants=inv),
+        # every 3-step history with read AND write timeouts and flushes; those that meet the trigger of one of the two
+        # pair findings are the canonical scenarios of that finding
+        dict(name="C20_pair_exh3", consts=bc.consts("pair", {"write", "enable", "loop", "tmo", "flush"}, 3, sizes=(1,), drains=(0,),
+                                                    wms=((0, 0),), durs=(0, 2), script_until=0,
+                                                    allow=("pair_rt_rearm", "pair_wt_endpoint")),
+             known_keys={1: "pair-read-timeout-while-disabled", 2: "pair-write-timeout-wrong-endpoint"}),
+        dict(name="C20_pair_rand", consts=bc.consts("pair", {"write", "enable", "loop", "script", "tmo", "tmor"}, 9,
+                                                    sizes=(1, 2), drains=(0, 99), wms=((0, 0),), durs=(0, 1, 2, 3), script_until=1),
+             simulate=25),
+        dict(name="C20_sock_" + ("def" if df else "imm"), consts=SK(df, 10), simulate=25),
+    ]
     plan = {
-        "mc": [("C20_mc_pair", bc.consts("pair", T, 4 if q else 5, sizes=(1,), drains=(0, 99), wms=((0, 0),), durs=(0, 1, 2),
-                                         script_until=1), inv)],
-        "gen": [
-            dict(name="C20_pair_exh", consts=bc.consts("pair", {"write", "enable", "disable", "loop", "tmo", "tmor"}, 3 if q else 4,
+        "mc": [] if q else [("C20_mc_pair", bc.consts("pair", T, 5, sizes=(1,), drains=(0, 99), wms=((0, 0),), durs=(0, 1, 2),
+                                                      script_until=1), inv)],
+        "gen": quick_gen if q else [
+            dict(name="C20_pair_exh", consts=bc.consts("pair", {"write", "enable", "disable", "loop", "tmo", "tmor"}, 4,
                                                        sizes=(1,), drains=(0,), wms=((0, 0),), durs=(0, 2)), ticks=(1000,)),
-            # every 4 (5)-step history of: writer writes / reader sets a read timeout, enables, loops with time passing
-            dict(name="C20_pair_exh5", consts=bc.consts("pair", {"write", "enable", "loop", "tmo", "tmor"}, 4 if q else 5, sizes=(1,),
-                                                        drains=(0,), wms=((0, 0),), durs=(0, 1, 2), oneway=True, script_until=0, tend=1),
-                 ticks=(1000,)),
+            dict(name="C20_pair_exh5", consts=EXH5(5), ticks=(1000,)),
             # read timeouts with data flowing (write timeouts on pairs: see the known finding and C20_pair_wt)
-            dict(name="C20_pair_rand", consts=bc.consts("pair", {"write", "enable", "loop", "script", "tmo", "tmor"}, 9 if q else 13,
+            dict(name="C20_pair_rand", consts=bc.consts("pair", {"write", "enable", "loop", "script", "tmo", "tmor"}, 13,
                                                         sizes=(1, 2), drains=(0, 99), wms=((0, 0),), durs=(0, 1, 2, 3), script_until=1),
-                 simulate=40 if q else 500, ticks=(1000,) if q else (1000, 1000000000)),
-            dict(name="C20_pair_rw", consts=bc.consts("pair", T | {"wmr", "tmor"}, 10 if q else 14, sizes=(1, 2), drains=(0, 99),
-                                                      wms=((0, 0), (0, 2)), durs=(0, 1, 2, 3), script_until=1),
-                 simulate=15 if q else 300),
-            dict(name="C20_pair_wt", consts=bc.consts("pair", {"write", "enable", "disable", "loop", "tmo", "tmow"}, 7 if q else 9,
+                 simulate=500, ticks=(1000, 1000000000)),
+            dict(name="C20_pair_rw", consts=bc.consts("pair", T | {"wmr", "tmor"}, 14, sizes=(1, 2), drains=(0, 99),
+                                                      wms=((0, 0), (0, 2)), durs=(0, 1, 2, 3), script_until=1), simulate=300),
+            dict(name="C20_pair_wt", consts=bc.consts("pair", {"write", "enable", "disable", "loop", "tmo", "tmow"}, 9,
                                                       sizes=(1,), drains=(0,), wms=((0, 0),), durs=(0, 1, 2, 3), script_until=0),
-                 simulate=15 if q else 300),
-            dict(name="C20_sock_imm", consts=bc.consts("sock", T | {"shut"}, 10 if q else 14, sizes=(1, 2), drains=(0, 99), wms=((0, 0),),
-                                                       durs=(0, 1, 2, 3), script_until=1),
-                 simulate=30 if q else 400, ticks=(1000,) if q else (1000, 1000000)),
-            dict(name="C20_sock_def", consts=bc.consts("sock", T, 10 if q else 14, sizes=(1, 2), drains=(0, 99), wms=((0, 0),),
-                                                       durs=(0, 1, 2, 3), script_until=1, defer=True), simulate=15 if q else 300),
-            dict(name="C20_filt_read", consts=bc.consts("filt", T | {"tmor"}, 9 if q else 12, sizes=(1, 2), drains=(0, 99), wms=((0, 0),),
-                                                        durs=(0, 1, 2, 3), script_until=1, filtfn="id"), simulate=15 if q else 300),
+                 simulate=300),
+            dict(name="C20_sock_imm", consts=SK(False, 14), simulate=400, ticks=(1000, 1000000)),
+            dict(name="C20_sock_def", consts=SK(True, 14), simulate=300),
+            dict(name="C20_filt_read", consts=bc.consts("filt", T | {"tmor"}, 12, sizes=(1, 2), drains=(0, 99), wms=((0, 0),),
+                                                        durs=(0, 1, 2, 3), script_until=1, filtfn="id"), simulate=300),
         ],
-        "known": [dict(name="C20_known_rt", key="pair-read-timeout-while-disabled",
-                       consts=K("pair_rt_rearm", {"write", "tmo", "tmor", "flush"})),
-                  dict(name="C20_known_wt", key="pair-write-timeout-wrong-endpoint",
-                       consts=K("pair_wt_endpoint", {"write", "enable", "tmo", "tmow"}))],
+        "known": [] if q else known,
         "known_fixed": [dict(name="C20_known_stale", key="sock-stale-io-timeout",
                              consts=bc.consts("sock", T, 8),
                              ops=[{"a": "tmo", "e": 1, "tr": 2, "tw": 0}, {"a": "enable", "e": 1, "m": 2},
